@@ -10,6 +10,11 @@ def run(tier, seed, replay):
     v = vlib.Verdict("C02", tier, seed)
     vlib.build_harness()
     rng = random.Random(seed)
+    # the encoder table (Asm.tla) and the decoder of the instruction-set definition (Isa.tla's field layout) describe the same set
+    import os
+    cons = vlib.tlc(os.path.join(vlib.SPEC, "mc", "MC_AsmIsa.tla"), os.path.join(vlib.SPEC, "mc", "MC_AsmIsa.cfg"), workers=4, timeout=900)
+    if not cons.ok:
+        raise vlib.ToolError("Asm.tla and Isa.tla disagree about the instruction table (specification bug):\n" + cons.out[-3000:])
     shapes = tg.all_shapes()
     texts = []
     if tier == "thorough":
@@ -26,6 +31,7 @@ def run(tier, seed, replay):
                 if "@" not in s and var >= 2:
                     continue
                 texts.append(tg.shape_program(s, ctx, var))
+    texts += tg.repo_corpus()
     nshape = len(texts)
     texts += [tg.program(rng, nlines=rng.randrange(2, 14)) for _ in range(600 if tier == "quick" else 6000)]
     path, summ = ac.parse_texts(texts, "c02", "full")
@@ -46,7 +52,7 @@ def run(tier, seed, replay):
     cov = {
         "states": validated + 1, "transitions": validated, "traces_validated_against_impl": validated,
         "samples": [{"text": texts[0]}, {"text": texts[nshape // 2]}, {"text": texts[-1]}],
-        "instruction_shapes": len(shapes), "shape_programs": nshape, "random_programs": len(texts) - nshape, "exhaustive": tier == "thorough",
+        "instruction_shapes": len(shapes), "asm_isa_table_nodes_checked": cons.distinct, "shape_programs": nshape, "random_programs": len(texts) - nshape, "exhaustive": tier == "thorough",
         "evaluations": len(texts), "distinct_nontrivial": len(set(texts)),
         "rule": "every instruction form x operand shape x register (%d shapes) placed after preceding directives (.ORG forward/same, .BYTE 0/1/3, .DB, .DW, "
                 ".EQU, label, instructions, settings) with backward / forward / mixed-case label references and .EQU constants (quick: one context per "
